@@ -883,4 +883,27 @@ Section Sim.
       unfold cnt in *. cbn. lia.
     - rewrite H. reflexivity.
   Qed.
+
+  (* C25: what is handed to Operator::run_in_place (and moved into a subgraph's capture
+     environment) are buffers owned by temp_values -- never a view of the caller's data *)
+  Lemma taken_buffers_owned env rest o n s s2 taken moved :
+    binv (val env) [] s -> cinv env (o :: rest) s -> get_op g o = Some n ->
+    step_take g S y s o n = ROk (s2, taken, moved) ->
+    forall b, In b (map snd taken ++ map snd moved) ->
+      (exists v, temp s v = Some b) /\ forall w, ext w <> Some b.
+  Proof.
+    intros B C En Etk b Hb.
+    destruct (step_take_ok env rest o n s B C En)
+      as (s2' & taken' & moved' & cs' & E & _ & _ & _ & _ & _ & F2 & _ & _ & Hm & _).
+    rewrite Etk in E. injection E as <- <- <-.
+    assert (Hv : exists v, temp s v = Some b).
+    { apply in_app_or in Hb. destruct Hb as [Hb|Hb].
+      - apply in_map_iff in Hb. destruct Hb as ((p, b') & E & Hin). cbn in E. subst b'.
+        clear - F2 Hin. induction F2 as [|c t cs1 tk (E1 & E2) F IH]; [contradiction|].
+        destruct Hin as [->|Hin]; [exists (snd c); exact E2|apply IH; exact Hin].
+      - apply in_map_iff in Hb. destruct Hb as ((v, b') & E & Hin). cbn in E. subst b'.
+        destruct (Hm _ _ Hin) as (_ & Ht & _). exists v. exact Ht. }
+    split; [exact Hv|]. destruct Hv as (v & Hv).
+    destruct (b_temp _ _ _ _ _ _ B v b Hv) as (_ & He & _). exact He.
+  Qed.
 End Sim.
